@@ -119,6 +119,25 @@ def check(run):
                                          "dfs", n=300, preempt=2))
                 progs.append(program(section(a, 1) + section(a, 2) + [c(clr, 1)] + section(a, 1) + section(a, 2),
                                      [section(a, 1), section(b, 1)], "dfs", n=400, preempt=2))
+    # (h) first simultaneous use of a key after a quiescent ClearKey, while ANOTHER key is held by a third goroutine: acquiring the
+    #     never-seen key 2 rebuilds the table's dirty map and expunges the cleared key's entry, so both users of key 1 go through the
+    #     revival of an expunged entry (one of them under the table's lock, the other lock-free); T2 only tries, T3 holds key 1 until
+    #     T2's try has returned, T1 holds key 2 throughout
+    for fam, clr in ((MUTEX, "ClearKey"), (RW, "WClearKey")):
+        for a in fam:
+            if a.startswith("T"):
+                continue
+            for b in fam:
+                if not b.startswith("T"):
+                    continue
+                for h in fam:
+                    if h.startswith("T"):
+                        continue
+                    acq, rel = CS[a]
+                    hacq, hrel = CS[h]
+                    setup = section(a, 1) + [c(clr, 1)]
+                    progs.append(program(setup, [[c(hacq, 2), c("Wait", wt=2, wn=2), c("Wait", wt=3, wn=3), c(hrel, 2)], section(b, 1),
+                                                 [c(acq, 1), c("Wait", wt=2, wn=1), c(rel, 1)]], "dfs", n=400, preempt=2))
     # (d) three goroutines, two keys, seeded random schedules
     rnd = []
     for i in range(30 if q else 500):
